@@ -210,7 +210,7 @@ def run(ctx, n):
                        'per-field overrides x documents x update; oracle: child errors beneath every top-level container field vs a '
                        'standalone real validation of the sub-document with prefixed paths; port: validate0; non-trivial = at least '
                        'one container field compared; distinct by canonical case')
-    profiles = ['deep', 'validate', 'deep', 'of']
+    profiles = ['deep', 'validate', 'deep', 'of', 'update']
     import random
     with Driver() as drv:
         oracle_root(ctx, None, None, None)
